@@ -17,6 +17,7 @@ import GraphiqModel.Proofs.Tableau
 import GraphiqModel.Proofs.TabSpecFactor
 import GraphiqModel.Proofs.HilbertTab
 import GraphiqModel.Proofs.HilbertKron
+import GraphiqModel.Proofs.HilbertDimHistory
 namespace Graphiq.C07
 open Graphiq Graphiq.PRow Graphiq.Tab
 
@@ -934,5 +935,254 @@ example (o : Bool) : Matrix.trace (proj 3 (Zq 0 o) * rho 3 (STab.ofTab ghz3) * p
 /-- after that measurement (outcome 1), measuring qubit 1 is deterministic -/
 example : ((ghz3.zMeasure 0 true).1.norm).pivot 1 = none ∧ ghz3.pivot 0 = some 3 := by decide
 example : Matrix.trace (rho 3 (STab.ofTab ghz3)) = 1 := (stabilizer_state_is_pure ghz3 ghz3_valid).1
+
+end Graphiq.C07
+
+/-! ## 7. Hilbert-space reading of the dimension-changing operations, for every n
+
+  §4b gives `insert_qubit`, `remove_qubit`, `partial_trace` and `tensor` at the level of the stabilizer group.  This section
+  says what they are on density matrices (`Proofs/HilbertDim{Site,State,Ops,Tensor,Ptrace,History}.lean`):
+
+  * `insSite q A u` is the operator `A` on the other qubits times the 2×2 matrix `u` on qubit `q` — Mathlib's Kronecker
+    product re-indexed along `Bits (m+1) ≃ Bits m × Bool` (delete / insert bit `q`); `kronB A B` the Kronecker product along
+    `Bits (m+n) ≃ Bits m × Bits n`; `ptraceSite q` the partial trace over qubit `q`, `ptraceList` its iteration over a removal
+    list; `ketbra s = |s⟩⟨s|`;
+  * insertion = `⊗_p |0⟩⟨0|`; tensor = `⊗`; removal = partial trace over `q` of the post-measurement state (for an
+    unentangled qubit: of the state itself, which is then a product); partial trace of a product factor = partial trace of
+    the density matrix;
+  * `history_tracks_density`: every accepted history refines the density-matrix semantics `dOps` of the API. -/
+
+namespace Graphiq.C07
+open Graphiq Graphiq.PRow Graphiq.Tab Graphiq.Hilbert Graphiq.TabSpec Matrix
+open scoped Kronecker
+
+/-! ### 7.1 tensor factors and partial traces over bit-string indices -/
+
+/-- `insSite` and `kronB` are Mathlib's Kronecker product along the explicit index equivalences; they are multiplicative,
+    and the partial trace over the site removes the factor: `Tr_q (A ⊗_q u) = tr(u) · A`, `tr(Tr_q M) = tr M` -/
+theorem site_tensor_is_kronecker_product (m n q : Nat) (hq : q ≤ m) (A A' : Matrix (Bits m) (Bits m) ℂ)
+    (u u' : Matrix Bool Bool ℂ) (B B' : Matrix (Bits n) (Bits n) ℂ) (M : Matrix (Bits (m + 1)) (Bits (m + 1)) ℂ) :
+    insSite q A u = (A ⊗ₖ u).submatrix (siteEquiv q hq) (siteEquiv q hq) ∧
+    kronB A B = (A ⊗ₖ B).submatrix (blockEquiv m n) (blockEquiv m n) ∧
+    insSite q A u * insSite q A' u' = insSite q (A * A') (u * u') ∧
+    kronB A B * kronB A' B' = kronB (A * A') (B * B') ∧
+    ptraceSite q (insSite q A u) = Matrix.trace u • A ∧
+    Matrix.trace (ptraceSite q M) = Matrix.trace M ∧
+    (∀ a b, ptraceSite q M a b = M (insB q a false) (insB q b false) + M (insB q a true) (insB q b true)) :=
+  ⟨rfl, rfl, insSite_mul q hq A A' u u', kronB_mul A A' B B', ptraceSite_insSite q hq A u, trace_ptraceSite q hq M,
+   ptraceSite_apply q M⟩
+
+/-- **the matrix of a Pauli row factorises at every site and across every cut** (generalising
+    `pauli_matrix_is_kronecker_product` from the last site): `pauliMat (m+1) P = pauliMat m (P without site q) ⊗_q σ(x_q,z_q)`;
+    a row with an identity inserted at `q` is `P ⊗_q 1`; `pauliMat (m+n) P = pauliMat m P ⊗ pauliMat n (P on the last n
+    sites)`; the rows `tensor` builds are `P ⊗ 1` and `1 ⊗ Q` -/
+theorem pauli_matrix_factorises_at_any_site (m n q : Nat) (hq : q ≤ m) (P : PRow) :
+    pauliMat (m + 1) P = insSite q (pauliMat m (P.deleteCol q)) (sigma (P.x q) (P.z q)) ∧
+    pauliMat (m + 1) (P.insertCol q) = insSite q (pauliMat m P) 1 ∧
+    pauliMat (m + n) P = kronB (pauliMat m P) (pauliMat n (tailRow m P)) ∧
+    pauliMat (m + n) (P.truncCols m) = kronB (pauliMat m P) 1 ∧
+    pauliMat (m + n) (P.shiftCols m) = kronB 1 (pauliMat n P) :=
+  ⟨pauliMat_site m q hq P, pauliMat_insertCol m q hq P, pauliMat_block m n P, pauliMat_truncCols m n P,
+   pauliMat_shiftCols m n P⟩
+
+/-- `ketbra s` is `|s⟩⟨s|`; it is the state `(1 + (-1)^s Z)/2` of the single-site stabilizer `±Z_q` -/
+theorem ketbra_is_basis_projector (q : Nat) (s a b : Bool) :
+    ketbra s a b = (if a = s ∧ b = s then 1 else 0) ∧ site1 (Zq q s) q = ketbra s := ⟨rfl, site1_Zq q s⟩
+
+/-! ### 7.2 insertion and tensor product -/
+
+/-- **`insert_qubit` adds a tensor factor `|0⟩⟨0|` at the requested position**: `ρ(insert_qubit(t, p)) = ρ(t) ⊗_p |0⟩⟨0|`
+    for every valid tableau (real stabilizer rows), every `n`, every `p ≤ n`; `add_qubit` is the case `p = n` -/
+theorem insert_qubit_is_tensor_with_ket0 (t : Tab) (p : Nat) (hp : p ≤ t.n) (hv : t.Valid) (hr : t.StabReal) :
+    rho (t.n + 1) (STab.ofTab (t.insertQubit p)) = insSite p (rho t.n (STab.ofTab t)) (ketbra false) ∧
+    (∀ a b : Bits (t.n + 1), rho (t.n + 1) (STab.ofTab (t.insertQubit p)) a b
+      = rho t.n (STab.ofTab t) (delB p a) (delB p b) * (if bx a p = false ∧ bx b p = false then 1 else 0)) := by
+  have h := rho_insertQubit t p hp hv hr
+  exact ⟨h, fun a b => by rw [h]; rfl⟩
+
+theorem add_qubit_is_tensor_with_ket0 (t : Tab) (hv : t.Valid) (hr : t.StabReal) :
+    rho (t.n + 1) (STab.ofTab t.addQubit) = insSite t.n (rho t.n (STab.ofTab t)) (ketbra false) :=
+  rho_insertQubit t t.n (Nat.le_refl _) hv hr
+
+/-- **`tensor([a, b])` is the tensor product of the states**: `ρ(tensor([a,b])) = ρ(a) ⊗ ρ(b)` with the qubits of `a`
+    first, for all tableaux of all sizes (no hypothesis) -/
+theorem tensor_is_kronecker_product (a b : Tab) :
+    rho (a.n + b.n) (STab.ofTab (Tab.tensor2 a b)) = kronB (rho a.n (STab.ofTab a)) (rho b.n (STab.ofTab b)) ∧
+    (∀ x y : Bits (a.n + b.n), rho (a.n + b.n) (STab.ofTab (Tab.tensor2 a b)) x y
+      = rho a.n (STab.ofTab a) (leftB x) (leftB y) * rho b.n (STab.ofTab b) (rightB x) (rightB y)) := by
+  have h := rho_tensor a b
+  exact ⟨h, fun x y => by rw [h]; rfl⟩
+
+example : rho 3 (STab.ofTab (bell.insertQubit 1)) = insSite 1 (rho 2 (STab.ofTab bell)) (ketbra false) :=
+  (insert_qubit_is_tensor_with_ket0 bell 1 (by decide) bell_valid bell_real).1
+example : rho 3 (STab.ofTab (Tab.tensor2 (Tab.ket1 1) bell))
+    = kronB (rho 1 (STab.ofTab (Tab.ket1 1))) (rho 2 (STab.ofTab bell)) := (tensor_is_kronecker_product (Tab.ket1 1) bell).1
+
+/-! ### 7.3 removing a qubit -/
+
+/-- **`remove_qubit` = partial trace of the post-measurement state.**  Valid tableau on `m+1` qubits, `q < m+1`, any
+    forced / drawn outcome `o`.  Inside `remove_qubit` the code Z-measures qubit `q`; the measured tableau is the product
+    `ρ(result) ⊗_q |s⟩⟨s|` (`s` the measurement outcome) and the returned tableau is its partial trace over `q`. -/
+theorem remove_qubit_is_partial_trace_of_measured_state (m : Nat) (t t' : Tab) (q : Nat) (o : Bool) (hm : t.n = m + 1)
+    (hq : q < t.n) (hv : t.Valid) (hr : t.StabReal) (h : t.removeQubit q o = .ok t') :
+    t'.n = m ∧
+    rho (m + 1) (STab.ofTab (t.zMeasure q o).1) = insSite q (rho m (STab.ofTab t')) (ketbra (t.zMeasure q o).2.1) ∧
+    rho m (STab.ofTab t') = ptraceSite q (rho (m + 1) (STab.ofTab (t.zMeasure q o).1)) :=
+  ⟨(rho_removeQubit_measured m t t' q o hm hq hv hr h).1, (rho_removeQubit_measured m t t' q o hm hq hv hr h).2,
+   rho_removeQubit m t t' q o hm hq hv hr h⟩
+
+/-- random branch (qubit `q` entangled with the rest or in an X/Y eigenstate): the result is the reduced state of the
+    post-measurement state of `ρ(t)` itself, `ρ(result) = Tr_q(Π_o ρ Π_o) / ½` with `Π_o = (1 + (-1)^o Z_q)/2` -/
+theorem remove_qubit_random_is_reduced_post_measurement_state (m : Nat) (t t' : Tab) (q p : Nat) (o : Bool)
+    (hm : t.n = m + 1) (hq : q < t.n) (hv : t.Valid) (hr : t.StabReal) (hp : t.pivot q = some p)
+    (h : t.removeQubit q o = .ok t') :
+    rho m (STab.ofTab t')
+      = (2 : ℂ) • ptraceSite q (proj (m + 1) (Zq q o) * rho (m + 1) (STab.ofTab t) * proj (m + 1) (Zq q o)) :=
+  rho_removeQubit_random m t t' q p o hm hq hv hr hp h
+
+/-- deterministic branch (`±Z_q` stabilizes the state): the state is the product `ρ(result) ⊗_q |s⟩⟨s|` and the result is
+    the reduced state `Tr_q ρ(t)` -/
+theorem remove_qubit_deterministic_is_partial_trace (m : Nat) (t t' : Tab) (q : Nat) (o : Bool) (hm : t.n = m + 1)
+    (hq : q < t.n) (hv : t.Valid) (hr : t.StabReal) (hp : t.pivot q = none) (h : t.removeQubit q o = .ok t') :
+    rho (m + 1) (STab.ofTab t) = insSite q (rho m (STab.ofTab t')) (ketbra (t.measScratch q).r) ∧
+    rho m (STab.ofTab t') = ptraceSite q (rho (m + 1) (STab.ofTab t)) :=
+  rho_removeQubit_det m t t' q o hm hq hv hr hp h
+
+/-- **removing an unentangled qubit leaves the state of the others unchanged**: if a single-site Pauli `σ` on qubit `q`
+    is in the stabilizer group, then `ρ(t) = ρ(result) ⊗_q (1 + σ_q)/2` and `ρ(result) = Tr_q ρ(t)`, whatever outcome is
+    drawn (also when the measurement inside `remove_qubit` is random, e.g. for `|+⟩`) -/
+theorem remove_unentangled_qubit_is_partial_trace (m : Nat) (t t' : Tab) (q : Nat) (o : Bool) (hm : t.n = m + 1)
+    (hq : q < t.n) (hv : t.Valid) (hr : t.StabReal) (σ : PRow) (hσg : Grp t σ) (hσ : SingleSite t.n q σ)
+    (h : t.removeQubit q o = .ok t') :
+    rho (m + 1) (STab.ofTab t) = insSite q (rho m (STab.ofTab t')) (site1 σ q) ∧
+    rho m (STab.ofTab t') = ptraceSite q (rho (m + 1) (STab.ofTab t)) :=
+  rho_removeQubit_unentangled m t t' q o hm hq hv hr σ hσg hσ h
+
+/-- tracing out a qubit forgets its Z-measurement: `Tr_q ρ(t)` is the equal mixture of the two possible results of
+    `remove_qubit` (the same tableau twice when the measurement is deterministic) -/
+theorem partial_trace_is_mixture_of_removals (m : Nat) (t t0 t1 : Tab) (q : Nat) (hm : t.n = m + 1) (hq : q < t.n)
+    (hv : t.Valid) (hr : t.StabReal) (h0 : t.removeQubit q false = .ok t0) (h1 : t.removeQubit q true = .ok t1) :
+    ptraceSite q (rho (m + 1) (STab.ofTab t)) = (1 / 2 : ℂ) • rho m (STab.ofTab t0) + (1 / 2 : ℂ) • rho m (STab.ofTab t1) :=
+  ptrace_remove_mix m t t0 t1 q hm hq hv hr h0 h1
+
+/-- Bell pair, remove qubit 1 (random measurement, pivot row 2): the hypotheses are met for both outcomes -/
+example (o : Bool) : ∃ t', bell.removeQubit 1 o = .ok t' ∧
+    rho 1 (STab.ofTab t') = (2 : ℂ) • ptraceSite 1 (proj 2 (Zq 1 o) * rho 2 (STab.ofTab bell) * proj 2 (Zq 1 o)) := by
+  obtain ⟨t', h⟩ := remove_qubit_total bell 1 o (by decide) bell_valid
+  exact ⟨t', h, remove_qubit_random_is_reduced_post_measurement_state 1 bell t' 1 2 o rfl (by decide) bell_valid bell_real
+    (by decide) h⟩
+/-- `|11⟩`, remove qubit 0 (deterministic, `−Z₀` in the group) -/
+example (o : Bool) : ∃ t', (Tab.ket1 2).removeQubit 0 o = .ok t' ∧
+    rho 1 (STab.ofTab t') = ptraceSite 0 (rho 2 (STab.ofTab (Tab.ket1 2))) := by
+  have hv : (Tab.ket1 2).Valid := (isSymplectic_iff_valid _).mp (by decide)
+  obtain ⟨t', h⟩ := remove_qubit_total (Tab.ket1 2) 0 o (by decide) hv
+  exact ⟨t', h, (remove_qubit_deterministic_is_partial_trace 1 (Tab.ket1 2) t' 0 o rfl (by decide) hv
+    (stabRealB_spec _ (by decide)) (by decide) h).2⟩
+
+/-! ### 7.4 partial trace -/
+
+/-- **`partial_trace` of unentangled qubits is the partial trace of the density matrix** (iterated over the removal list,
+    highest index first), for every outcome script -/
+theorem partial_trace_product_is_partial_trace (m : Nat) (t t' : Tab) (keep : List Nat) (os : List Bool)
+    (hm : t.n = m + (removalList t.n keep).length) (hv : t.Valid) (hr : t.StabReal)
+    (hu : ∀ q, q < t.n → q ∉ keep → Unentangled t q) (h : t.partialTrace keep os = .ok t') :
+    rho m (STab.ofTab t') = ptraceList (removalList t.n keep) (rho (m + (removalList t.n keep).length) (STab.ofTab t)) :=
+  rho_partialTrace_product m t t' keep os hm hv hr hu h
+
+/-- **`partial_trace` of a product factor is the partial trace of the density matrix**: if the state factorises across
+    the cut kept | traced-out (`Factor`; the traced-out qubits may be entangled among themselves and their measurements
+    random), then `ρ(partial_trace(t, keep)) = Tr_{removed} ρ(t)` for every outcome script -/
+theorem partial_trace_factor_is_partial_trace (m : Nat) (t t' : Tab) (keep : List Nat) (os : List Bool)
+    (hm : t.n = m + (removalList t.n keep).length) (hv : t.Valid) (hr : t.StabReal)
+    (hf : Factor t (removalList t.n keep)) (h : t.partialTrace keep os = .ok t') :
+    rho m (STab.ofTab t') = ptraceList (removalList t.n keep) (rho (m + (removalList t.n keep).length) (STab.ofTab t)) :=
+  rho_partialTrace_factor m t t' keep os hm hv hr hf h
+
+/-- **`partial_trace(tensor([a, b]))` onto the qubits of `a` (resp. `b`) is the state of `a` (resp. `b`)**, as density
+    matrices, and it is the partial trace of `ρ(tensor([a,b])) = ρ(a) ⊗ ρ(b)` over the other factor -/
+theorem partial_trace_of_tensor_is_factor (a b t' : Tab) (os : List Bool) (ha : a.Valid) (hb : b.Valid)
+    (ra : a.StabReal) (rb : b.StabReal) :
+    ((Tab.tensor2 a b).partialTrace (List.range a.n) os = .ok t' →
+      rho a.n (STab.ofTab t') = rho a.n (STab.ofTab a) ∧
+      rho a.n (STab.ofTab t') = ptraceList (removalList (a.n + b.n) (List.range a.n))
+        (rho (a.n + (removalList (a.n + b.n) (List.range a.n)).length) (STab.ofTab (Tab.tensor2 a b)))) ∧
+    ((Tab.tensor2 a b).partialTrace (rightSites a.n b.n) os = .ok t' →
+      rho b.n (STab.ofTab t') = rho b.n (STab.ofTab b) ∧
+      rho b.n (STab.ofTab t') = ptraceList (removalList (a.n + b.n) (rightSites a.n b.n))
+        (rho (b.n + (removalList (a.n + b.n) (rightSites a.n b.n)).length) (STab.ofTab (Tab.tensor2 a b)))) :=
+  ⟨rho_partialTrace_tensor_left a b t' os ha hb ra rb, rho_partialTrace_tensor_right a b t' os ha hb ra rb⟩
+
+/-- `partial_trace` never hits an assertion on a valid tableau -/
+theorem partial_trace_total (t : Tab) (keep : List Nat) (os : List Bool) (hv : t.Valid) (hr : t.StabReal) :
+    ∃ t', t.partialTrace keep os = .ok t' :=
+  partialTrace_go_total (removalList t.n keep) t os hv hr (removalList_desc t.n keep)
+    (fun q hq => ((mem_removalList t.n keep q).mp hq).1)
+
+/-- `|1⟩ ⊗ Bell`, trace the (internally entangled, randomly measured) Bell pair out: the result is `|1⟩⟨1|` -/
+example (os : List Bool) : ∃ t', (Tab.tensor2 (Tab.ket1 1) bell).partialTrace (List.range 1) os = .ok t' ∧
+    rho 1 (STab.ofTab t') = rho 1 (STab.ofTab (Tab.ket1 1)) := by
+  have hv1 : (Tab.ket1 1).Valid := (isSymplectic_iff_valid _).mp (by decide)
+  have hr1 : (Tab.ket1 1).StabReal := stabRealB_spec _ (by decide)
+  obtain ⟨t', h⟩ := partial_trace_total (Tab.tensor2 (Tab.ket1 1) bell) (List.range 1) os
+    (tensor_valid _ _ hv1 bell_valid) (tensor_stab_real _ _ hr1 bell_real)
+  exact ⟨t', h, ((partial_trace_of_tensor_is_factor (Tab.ket1 1) bell t' os hv1 bell_valid hr1 bell_real).1 h).1⟩
+
+/-! ### 7.5 every history tracks the density matrix -/
+
+/-- **Z-measurement as a quantum operation**: the reported outcome is the one that occurs (the forced / drawn `o` unless
+    it has probability `tr(Π_o ρ) = 0`), the new tableau is the normalised post-measurement state `Π ρ Π / tr(Π ρ)`, and the
+    measurement is random (pivot found) exactly when both outcomes have non-zero probability -/
+theorem measurement_is_quantum_measurement (t : Tab) (q : Nat) (o : Bool) (hq : q < t.n) (hv : t.Valid) (hr : t.StabReal) :
+    measOutcome t.n q o (rho t.n (STab.ofTab t)) = (t.zMeasure q o).2.1 ∧
+    postMeas t.n q o (rho t.n (STab.ofTab t)) = rho t.n (STab.ofTab (t.zMeasure q o).1) ∧
+    (dRandom q (dstate t) ↔ (t.pivot q).isSome = true) := meas_density t q o hq hv hr
+
+/-- **one API call refines the density-matrix semantics** `dOp` (gates, swap: `U ρ U†`; measurement and resets: projective
+    measurement with the scripted outcome, then `X_q` iff the outcome is not the intended state, then `H` / `P·H` for
+    `reset_x` / `reset_y`; insertion: `⊗_p |0⟩⟨0|`; removal: measurement then partial trace; partial trace: removals, highest
+    index first) -/
+theorem op_tracks_density_matrix (t t' : Tab) (op : Tab.Op) (out : Option (Bool × Bool)) (hop : WF op) (hv : t.Valid)
+    (hr : t.StabReal) (h : t.applyOp op = .ok (t', out)) : dstate t' = dOp op (dstate t) :=
+  op_tracks_density t t' op out ((wf_iff op).mp hop) hv hr h
+
+/-- **History theorem, Hilbert-space form.**  From a valid tableau with real stabilizer rows, along any finite history of
+    API calls that the API accepts (gates, swap, measurements and resets with any outcome script, insertions, removals,
+    partial traces), the density matrix of the final tableau — number of qubits included — is the density-matrix
+    semantics `dOps` of the history applied to the initial density matrix. -/
+theorem history_tracks_density (ops : List Tab.Op) (hops : ∀ op ∈ ops, WF op) :
+    ∀ (t t' : Tab), t.Valid → t.StabReal → t.runOps ops = .ok t' → dstate t' = dOps ops (dstate t) := by
+  induction ops with
+  | nil => intro t t' _ _ h; simp [runOps] at h; rw [← h]; rfl
+  | cons op rest ih =>
+    intro t t' hv hr h
+    simp only [runOps] at h
+    split at h
+    · next t1 out h1 =>
+      have hop := hops op List.mem_cons_self
+      have v1 := op_preserves_valid t t1 op out hop hv h1
+      have r1 := (op_tracks_state t t1 op out hop hv hr h1).1
+      have d1 := op_tracks_density_matrix t t1 op out hop hv hr h1
+      rw [ih (fun o ho => hops o (List.mem_cons_of_mem _ ho)) t1 t' v1 r1 h, d1]
+      rfl
+    · simp at h
+
+/-- the history of §4b.9 on the Bell pair is accepted, so the theorem applies to it (8 operations of every kind) -/
+example : ∃ t', bell.runOps [.h 0, .cnot 0 1, .meas 1 true, .insert 2, .resetY 0 true false, .swap 1 2, .remove 0 true,
+      .ptrace [0] [false]] = .ok t' ∧
+    dstate t' = dOps [.h 0, .cnot 0 1, .meas 1 true, .insert 2, .resetY 0 true false, .swap 1 2, .remove 0 true,
+      .ptrace [0] [false]] (dstate bell) := by
+  have hwf : ∀ op ∈ ([.h 0, .cnot 0 1, .meas 1 true, .insert 2, .resetY 0 true false, .swap 1 2, .remove 0 true,
+      .ptrace [0] [false]] : List Tab.Op), WF op := by
+    intro op hop
+    simp only [List.mem_cons, List.mem_nil_iff, or_false] at hop
+    rcases hop with rfl | rfl | rfl | rfl | rfl | rfl | rfl | rfl <;> first | trivial | (show (0 : Nat) ≠ 1; decide)
+  cases hrun : bell.runOps [.h 0, .cnot 0 1, .meas 1 true, .insert 2, .resetY 0 true false, .swap 1 2, .remove 0 true,
+      .ptrace [0] [false]] with
+  | error e =>
+    exfalso
+    have : (match bell.runOps [.h 0, .cnot 0 1, .meas 1 true, .insert 2, .resetY 0 true false, .swap 1 2, .remove 0 true,
+      .ptrace [0] [false]] with | .ok _ => true | .error _ => false) = true := by decide +kernel
+    rw [hrun] at this; cases this
+  | ok t' => exact ⟨t', rfl, history_tracks_density _ hwf bell t' bell_valid bell_real hrun⟩
 
 end Graphiq.C07
